@@ -4,7 +4,7 @@
    Case:   1 kind mode p1 p2          kind 1 TSS<int> | 2 TSD<int,TS<int>> | 3 TSW<int,p1,p2>
            2 t (code a b)*            one engine cycle at time t with its scripted mutations
    TSS ops 1 add k | 2 remove k | 3 clear | 4 reserve c | 5 touch
-   TSD ops 1 set k v | 2 erase k | 3 clear | 4 reserve c | 5 touch | 6 create k (at(k), child untouched)
+   TSD ops 1 set k v | 2 erase k | 3 clear | 4 reserve c | 5 touch | 6 create k (at(k), child untouched) | 7 write k v through the element's own view
    TSW ops 1 push v | 3 clear
    TSB/TSL ops 1 set i v *)
 Require Import Base Coll Window Fixed.
@@ -22,7 +22,7 @@ Definition dec_sop (x : Z * Z * Z) : sop :=
 Definition dec_dop (x : Z * Z * Z) : dop :=
   let '(c, a, b) := x in
   if c =? 1 then DSet a b else if c =? 2 then DErase a else if c =? 3 then DClear
-  else if c =? 4 then DReserve (Z.to_nat a) else if c =? 5 then DTouch else if c =? 6 then DCreate a else DNop.
+  else if c =? 4 then DReserve (Z.to_nat a) else if c =? 5 then DTouch else if c =? 6 then DCreate a else if c =? 7 then DWrite a b else DNop.
 Definition dec_wop (x : Z * Z * Z) : wop :=
   let '(c, a, _) := x in
   if c =? 1 then WPush a else if c =? 3 then WClear else WNop.
